@@ -144,6 +144,9 @@ type Payload struct {
 	Stun    bool
 }
 
+// RefusedPayloadID marks payloads the fake sockets refuse to send (model: refused_payload_id).
+const RefusedPayloadID = -7
+
 func (p Payload) Toks() []string { return []string{fmt.Sprint(p.ID), fmt.Sprint(p.Len), b2s(p.Stun)} }
 
 // Bytes renders the payload deterministically.
@@ -210,6 +213,10 @@ func (f *fakeConn) WriteTo(p []byte, addr net.Addr) (int, error) {
 	case <-f.closed:
 		return 0, net.ErrClosed
 	default:
+	}
+	// a payload marked as refused: the socket reports a send fault for it (nothing goes out)
+	if pl, ok := f.sim.payloads[string(p)]; ok && pl.ID == RefusedPayloadID {
+		return 0, errors.New("fake: send refused")
 	}
 	var ap netip.AddrPort
 	switch a := addr.(type) {
